@@ -55,6 +55,22 @@ theorem check_exact_iff (s : Session) (off : Nat) : s.checkExact off = .err .che
 theorem check_ok_iff (s : Session) (off : Nat) : s.check off = .ok ↔ s.cursor ≤ off := by
   unfold Session.check; split <;> simp_all <;> omega
 
+/-- the same for the uncommitted modifier (`alter_uncommitted`, `VecAssembler::alter`, `SimpleAssembler::alter`): its cursor is an ABSOLUTE
+assembly offset — the buffer it indexes starts at `base`, the committed length — and the checks compare that absolute cursor -/
+theorem unc_check_iff (m : Machine) (u : Unc) (n : Nat) :
+    (stepUnc m u (.chk n)).2 = .err .checkFailed ↔ u.offset > n := by
+  simp only [stepUnc]; split <;> simp_all
+
+theorem unc_check_exact_iff (m : Machine) (u : Unc) (n : Nat) :
+    (stepUnc m u (.chkx n)).2 = .err .checkFailed ↔ u.offset ≠ n := by
+  simp only [stepUnc]; split <;> simp_all
+
+/-- `offset()` of the uncommitted modifier is the absolute cursor, and `goto` sets it -/
+theorem unc_offset_goto (m : Machine) (u : Unc) (n : Nat) :
+    (stepUnc m u .off).2 = .num u.offset ∧
+    (stepUnc m u (.goto n)).1.mode = .unc { u with offset := n } := by
+  simp [stepUnc]
+
 /-! ## a whole session of gotos and emissions: the frame -/
 
 inductive SOp
